@@ -254,12 +254,17 @@ def run_shard(ctx):
                 m = 2
             eps = float(EPSS[i % len(EPSS)] if rng.random() < 0.7 else rng.choice(EPSS))
             kind = str(rng.choice(["near", "near", "far", "far", "physical", "boundary", "negative", "negative"]))
+            slow = (i == 0 and shape == "S1" and t in ("Gate", "MProcess"))
+            if slow:
+                # an input that needs > 1000 Dykstra sweeps (measured: 1000-2300 at distance 100, eps 1e-14): exercises
+                # iteration limits above the routine's default of 1000
+                kind, eps = "far", 1e-14
             base = refopt.random_physical(t, B, d, m, rng, rank=1 if kind == "boundary" else None)
             if kind == "near":
                 s_in = base + float(rng.choice([1e-3, 1e-2, 1e-1])) * rng.standard_normal(base.size)
             elif kind == "far":
                 g = rng.standard_normal(base.size)
-                s_in = base + g / np.linalg.norm(g) * float(rng.choice([1.0, 10.0, 100.0]))
+                s_in = base + g / np.linalg.norm(g) * (100.0 if slow else float(rng.choice([1.0, 10.0, 100.0])))
             elif kind == "negative":
                 # every operator negative (semi)definite: the inequality projection sends the point (almost) to zero, the
                 # iteration stalls in x while the increments keep changing - hostile to "x did not move" stopping rules
@@ -335,6 +340,18 @@ def run_shard(ctx):
                             ctx.num(nm, float(np.linalg.norm(results[("obj", order)] - results[(form, order)])), tp, tf,
                                     key=f"calc_proj_physical:{t}:{form}-form-differs-from-object-form:flag={flag}",
                                     info={"eps": eps, "order": order, "a_norm": an})
+                # A closure only delegates to the routine of the same level with the parameters it captured (flag, order,
+                # iteration limit): on the same input it must reproduce that routine's result exactly (free entries
+                # compared; 1e-12 relative allowed).  This is what pins the captured max_iteration / order / threshold:
+                # a closure that silently runs with other parameters is still "accurate to the threshold" on easy inputs
+                # (missed seeded change C05-4).
+                vw = lambda x: refopt.var_from_stack(t, d, m, x, flag)  # noqa: E731
+                for direct, clo in (("var", "closure-var"), ("obj", "closure-obj")):
+                    if (direct, order) in results and (clo, order) in results:
+                        e = float(np.max(np.abs(vw(results[(direct, order)]) - vw(results[(clo, order)])))) / (1.0 + an)
+                        ctx.num(f"forms:{clo}-reproduces-{direct}-routine", e, 1e-12, 1e-9,
+                                key=f"calc_proj_physical:{t}:{clo}-does-not-reproduce-the-{direct}-level-routine-with-the-captured-parameters:flag={flag}",
+                                info={"eps": eps, "order": order, "a_norm": an, "max_iteration": MAX_ITER})
     finally:
         hs.uninstall()
     ctx.extra["hook_counts"] = hs.counts
